@@ -308,13 +308,14 @@ fn draw_config(sim: &mut Sim, top: bool) -> Config {
     let ticks = if kinds.len() == 1 { sim.choose("knob_ticks", 1, 3) } else { sim.choose("knob_ticks", 1, 2) } as usize;
     let max_items = if kinds.len() == 1 { 4 } else { 3 };
     let nkeys = sim.choose("knob_nkeys", 1, 2);
-    let mut budget: Vec<u64> = kinds.iter().map(|_| sim.choose("knob_items", 1, max_items)).collect();
+    // bias towards the larger queues (max of two draws): they carry the interesting decision spaces
+    let mut budget: Vec<u64> = kinds.iter().map(|_| sim.choose("knob_items", 1, max_items).max(sim.choose("knob_items", 1, max_items))).collect();
     let mut arrivals = vec![];
     for t in 0..ticks {
         let mut per_hook = vec![];
         for (h, k) in kinds.iter().enumerate() {
             // most items arrive before the first tick; later ticks may get one more
-            let n = if t == 0 { sim.choose("knob_initial", 1, budget[h]) } else { sim.choose("knob_late", 0, budget[h].min(1)) };
+            let n = if t == 0 { sim.choose("knob_initial", 1, budget[h]).max(sim.choose("knob_initial", 1, budget[h])) } else { sim.choose("knob_late", 0, budget[h].min(1)) };
             budget[h] -= n;
             let items: Vec<(Key, u8)> = (0..n)
                 .map(|_| {
